@@ -115,6 +115,8 @@ pub fn run(ctx: &mut Ctx) {
     lincode::<MlLigero>(ctx, "ml-ligero", &nvs.iter().map(|n| Sizes { max_degree: 1, supported: 1, num_vars: Some(*n) }).collect::<Vec<_>>(), 4.0, true);
     lincode::<Brakedown>(ctx, "brakedown", &nvs.iter().filter(|n| **n >= 3).map(|n| Sizes { max_degree: 1, supported: 1, num_vars: Some(*n) }).collect::<Vec<_>>(), 1.521, false);
     crate::generic::c19_extra(ctx);
+    // the shape / column-count law of the linear codes at sizes far beyond what a quick run commits to
+    crate::props_c13::part_d_p(ctx, "C19");
 }
 
 /// modelled proof size for a matrix with `n_rows` rows (one polynomial, one point)
